@@ -42,6 +42,7 @@ THEOREMS = [
     # update rules of the gradient optimizers, regenerated from the source (harness/translate/formulas.py)
     "Pyribs.GenFProofs.ascent_matches",
     "Pyribs.GenFProofs.adam_matches",
+    "Pyribs.GenFProofs.cma_params_match",
     # T18.1
     "Pyribs.C18.weights_of_values",
     "Pyribs.C18.weights_pos_decreasing_sum_one",
